@@ -5,7 +5,7 @@ there cannot be lost by a refactoring). Usage: tools/hint_prune.py [file.vc ...]
 import os, re, subprocess, sys, json
 V = '/verif'
 sys.path.insert(0, V)
-SKIP = {'template.vc'}
+SKIP = set()
 
 def units_of(key):
     res = []
@@ -21,8 +21,26 @@ def verify(unit):
         return False, 'gen failed'
     r = subprocess.run(['verus', 'work/%s.rs' % unit, '--rlimit', '40', '--num-threads', '16'], cwd=V, capture_output=True, text=True)
     m = re.search(r'verification results:: (\d+) verified, (\d+) errors', r.stdout + r.stderr)
-    return (bool(m) and m.group(2) == '0' and r.returncode == 0), (m.group(0) if m else 'no result')
+    if not m:
+        return False, 'no result'
+    base = BASE.get(unit)
+    if base is None:
+        return (m.group(2) == '0'), m.group(0)
+    return ((int(m.group(1)), int(m.group(2))) == base), m.group(0) + ' (baseline %s)' % (base,)
 
+BASE = {}
+
+def baseline(unit):
+    # units with known findings have a non-zero error count on the unchanged tree: compare against it
+    r = subprocess.run(['./vx', 'gen', unit], cwd=V, capture_output=True, text=True)
+    r = subprocess.run(['verus', 'work/%s.rs' % unit, '--rlimit', '40', '--num-threads', '16'], cwd=V, capture_output=True, text=True)
+    m = re.search(r'verification results:: (\d+) verified, (\d+) errors', r.stdout + r.stderr)
+    if m:
+        BASE[unit] = (int(m.group(1)), int(m.group(2)))
+
+for u_ in ('interp', 'script_parse', 'script_ser'):
+    baseline(u_)
+print('baselines', BASE, flush=True)
 files = sys.argv[1:] or [f for f in sorted(os.listdir(V + '/contracts')) if f.endswith('.vc') and f not in SKIP]
 for f in files:
     path = V + '/contracts/' + f
